@@ -130,6 +130,9 @@ fn collect_sites(stmts: &[Stmt], path: &mut Vec<(usize, u8)>, context: &'static 
                     Expr::Num(n) if n == "0" => (false, true),
                     Expr::Num(_) => (true, false),
                     Expr::Ident { path: p, .. } if p == "c" => (true, false),
+                    // `index == 2` in a loop of 3, `p == 7` in a macro that is invoked with 1 and with 7: each branch is
+                    // assembled in some iteration / invocation, though not in the first one
+                    Expr::Bin(l, "==", _) if matches!(&**l, Expr::Ident { path: p, .. } if p == "index" || p == "p") => (true, true),
                     _ => (false, false),
                 };
                 path.push((i, 0));
@@ -243,6 +246,29 @@ fn cases() -> Vec<Case> {
         stmts.push(konst(&format!("c{}", n), num(7)));
         stmts.push(imp("rts"));
         bases.push(mvlib::progs::Prog { name: "slow-settling".into(), stmts, valid: true });
+    }
+    // code that is only reached in a later iteration of a loop, and in the second invocation of a macro
+    {
+        use mvlib::isa::Form;
+        let stmts = vec![
+            imp("nop"),
+            Stmt::Loop {
+                count: num(3),
+                body: vec![
+                    Stmt::If { cond: bin(id("index"), "==", num(2)), then: vec![imp("inx")], els: Some(vec![imp("iny")]) },
+                    ins("lda", Form::Imm, id("index")),
+                ],
+            },
+            Stmt::MacroDef {
+                name: "later".into(),
+                params: vec!["p".into()],
+                body: vec![Stmt::If { cond: bin(id("p"), "==", num(7)), then: vec![imp("dex")], els: None }, imp("dey")],
+            },
+            Stmt::MacroCall { name: "later".into(), args: vec![num(1)] },
+            Stmt::MacroCall { name: "later".into(), args: vec![num(7)] },
+            imp("rts"),
+        ];
+        bases.push(mvlib::progs::Prog { name: "later-iterations".into(), stmts, valid: true });
     }
     for p in bases.into_iter() {
         let mut sites = vec![];
